@@ -184,7 +184,15 @@ class TermEval:
                 return [st]
             return [st]
 
-        w = PathWalker(on_stmt=on_stmt)
+        def on_cond(test: ast.expr, st: Store, truth: bool):
+            # walrus bindings made by the test are visible afterwards
+            for n in ast.walk(test):
+                if isinstance(n, ast.NamedExpr) and isinstance(n.target, ast.Name):
+                    v, st = self._ev_effect(n.value, st)
+                    st = st.set(n.target.id, v)
+            return [st]
+
+        w = PathWalker(on_stmt=on_stmt, on_cond=on_cond)
         ex = w.run(self.fn.body, init)
         outs: list[tuple[Term | None, Store]] = []
         for r, st in ex.returns:
